@@ -47,3 +47,24 @@ def single_objective_values(lo=-3, hi=3):
 def exact_int_values(lo=-3, hi=3):
     """Integers only (exact under the aggregates used by multi-objective problems)."""
     return st.one_of(st.integers(lo, hi), st.integers(lo, hi), st.integers(lo, hi), st.sampled_from(NEAR_TIE_INTS))
+
+
+NUMBER_FORMS = (None, None, None, "uint8", "uint64", "int8", "int64", "float32", "float64")
+
+
+def as_form(v, form):
+    """The same number as a fitness function written with numpy would return it (the documented
+    return type is a number; numpy scalars are numbers). Values the dtype cannot hold exactly stay
+    Python numbers."""
+    if form is None or isinstance(v, bool):
+        return v
+    import numpy as np
+
+    dt = getattr(np, form)
+    if form.startswith(("uint", "int")):
+        if not isinstance(v, int):
+            return v
+        info = np.iinfo(dt)
+        return dt(v) if info.min <= v <= info.max else v
+    x = dt(v)
+    return x if float(x) == float(v) else v
